@@ -14,39 +14,18 @@ func Clone(g Geometry) Geometry {
 	case Point:
 		return g
 	case MultiPoint:
-		if g == nil {
-			return nil
-		}
 		return g.Clone()
 	case LineString:
-		if g == nil {
-			return nil
-		}
 		return g.Clone()
 	case MultiLineString:
-		if g == nil {
-			return nil
-		}
 		return g.Clone()
 	case Ring:
-		if g == nil {
-			return nil
-		}
 		return g.Clone()
 	case Polygon:
-		if g == nil {
-			return nil
-		}
 		return g.Clone()
 	case MultiPolygon:
-		if g == nil {
-			return nil
-		}
 		return g.Clone()
 	case Collection:
-		if g == nil {
-			return nil
-		}
 		return g.Clone()
 	case Bound:
 		return g
